@@ -58,6 +58,7 @@ type plan struct {
 	Kind string `json:"kind"`
 	A    int    `json:"a"`
 	B    int    `json:"b"`
+	Lo   *int64 `json:"lo,omitempty"` // FromTime of the request (ShiftMatching only): expiry >= Lo
 }
 type prog struct {
 	Kind string `json:"kind"` // SE (ShiftExpired) SM (ShiftMatching) PE W*
@@ -178,6 +179,10 @@ func runProg(e *lib.Env, sw string, p prog) result {
 		if p.Od {
 			q.To = &nowCut
 		}
+		if p.P.Lo != nil {
+			from := expOf(*p.P.Lo)
+			q.From = &from
+		}
 		rs, _, err := e.ShiftMatching(sw, q)
 		return shiftResult(rs, err)
 	case "PE":
@@ -264,6 +269,23 @@ func cRec(r rec) string {
 		common.N(uint64(r.K)), common.N(uint64(r.St)), common.N(uint64(r.Grp)), common.Z(r.E))
 }
 func cPlan(p plan) string {
+	if p.Lo != nil {
+		lo := "(exp_ge " + common.Z(*p.Lo) + ")"
+		q := p
+		q.Lo = nil
+		switch p.Kind {
+		case "true", "none":
+			return "(PBypass " + lo + ")"
+		case "ne":
+			return "(PBypass (andp " + lo + " (st_ne " + common.N(uint64(p.A)) + ")))"
+		case "ge":
+			return "(PBypass (andp " + lo + " (grp_ge " + common.N(uint64(p.B)) + ")))"
+		case "eq":
+			return "(PIndexed (st_eq " + common.N(uint64(p.A)) + ") " + lo + ")"
+		case "eqge":
+			return "(PIndexed (st_eq " + common.N(uint64(p.A)) + ") (andp " + lo + " (grp_ge " + common.N(uint64(p.B)) + ")))"
+		}
+	}
 	switch p.Kind {
 	case "true":
 		return "(PBypass ftrue)"
@@ -279,14 +301,17 @@ func cPlan(p plan) string {
 	panic("plan kind " + p.Kind)
 }
 func cOptPlan(p plan) string {
-	if p.Kind == "none" {
+	if p.Kind == "none" && p.Lo == nil {
 		return "None"
 	}
 	return common.Some(cPlan(p))
 }
 func planOfShift(p prog) plan {
-	if p.Kind == "SE" || p.P.Kind == "none" {
+	if p.Kind == "SE" {
 		return plan{Kind: "true"}
+	}
+	if p.P.Kind == "none" {
+		return plan{Kind: "true", Lo: p.P.Lo}
 	}
 	return p.P
 }
@@ -554,7 +579,7 @@ func runDriven(e *lib.Env, rs []rec, ps []prog, kind string, drive func(d *drive
 func firstMatch(rs []rec, p prog) (int, bool) {
 	best, found := rec{}, false
 	for _, r := range rs {
-		if r.E == 0 || (p.Od && r.E > 0) {
+		if r.E == 0 || (p.Od && r.E > 0) || (p.P.Lo != nil && r.E < *p.P.Lo) {
 			continue
 		}
 		ok := true
@@ -611,6 +636,52 @@ func runMid(e *lib.Env, rs []rec, ps []prog, kind string) obs {
 			d.record(mstep{"Finish", 1}, pre0)
 			d.record(mstep{selKind, 0}, d.dump())
 		}
+	})
+}
+
+// runQueue: a writer is parked INSIDE the per-key guard of record X (hook swamp.patchFields.guarded)
+// while a PatchExpired that has already selected X and a Delete of X both queue on that guard, in
+// either order; the guard is FIFO. Thread 0 = PatchExpired, 1 = guard-holding writer, 2 = Delete.
+func runQueue(e *lib.Env, rs []rec, ps []prog, deleteFirst bool, kind string) obs {
+	return runDriven(e, rs, ps, kind, func(d *driver) {
+		pre0 := d.dump()
+		if got := d.ctl.Advance(0, stepTimeout, "swamp.patchExpired.selected"); got != "swamp.patchExpired.selected" {
+			if got == "done" {
+				d.record(mstep{"Finish", 0}, pre0)
+			}
+			return
+		}
+		d.record(mstep{"Selected", 0}, pre0)
+		if got := d.ctl.Advance(1, stepTimeout, "swamp.patchFields.guarded"); got != "swamp.patchFields.guarded" {
+			if got == "done" {
+				d.record(mstep{"Finish", 1}, pre0)
+			}
+			return
+		}
+		first, second := 2, 0
+		if !deleteFirst {
+			first, second = 0, 2
+		}
+		a := d.ctl.Advance(first, 250*time.Millisecond)
+		b := d.ctl.Advance(second, 250*time.Millisecond)
+		// the writer leaves the guard; the queue drains in arrival order
+		if d.ctl.Advance(1, stepTimeout) != "done" {
+			d.note("the guard-holding writer never finished")
+			return
+		}
+		d.record(mstep{"Finish", 1}, pre0)
+		if a != "done" {
+			a = d.ctl.Wait(first, stepTimeout)
+		}
+		if b != "done" {
+			b = d.ctl.Wait(second, stepTimeout)
+		}
+		if a != "done" || b != "done" {
+			d.note("a thread queued on the record guard never finished")
+			return
+		}
+		d.record(mstep{"Finish", first}, pre0)
+		d.record(mstep{"Finish", second}, pre0)
 	})
 }
 
@@ -745,6 +816,10 @@ func genClaimer(r *common.Rng) prog {
 		return prog{Kind: "SE", Hm: 1 + r.Intn(3), Od: true, P: plan{Kind: "none"}}
 	case 1, 2:
 		pl := genPlan(r, false)
+		if r.Chance(35) {
+			lo := int64(-100 + r.Intn(14))
+			pl.Lo = &lo
+		}
 		return prog{Kind: "SM", Hm: 1 + r.Intn(3), Od: r.Chance(75), P: pl}
 	default:
 		p := prog{Kind: "PE", Hm: 1 + r.Intn(3), P: genPlan(r, true), Nst: 2}
@@ -1035,8 +1110,95 @@ func main() {
 		add(runForced(e, rs, ps, []mstep{{"Selected", 0}, {"Finish", 1}, {"Finish", 2}, {"Finish", 0}, {"Finish", 3}}, "forced-recreate-shift"))
 	}
 
+	// 1d. the yield between predicate construction and the engine call: a writer moves the first
+	// record the claimer would take out of the criteria in every possible way (indexed leg,
+	// residual leg, time window upper / lower bound, expiry removed, overwritten, deleted)
+	nyield := 60
+	if thorough {
+		nyield = 600
+	}
+	for i := 0; i < nyield; i++ {
+		n := 3 + rng.Intn(3)
+		rs := genRecs(rng, n)
+		var c prog
+		if rng.Chance(65) {
+			c = prog{Kind: "SM", Hm: 1 + rng.Intn(3), Od: rng.Chance(70), P: plan{Kind: []string{"eq", "eqge", "eqge", "ne", "ge"}[rng.Intn(5)], A: rng.Intn(3), B: 1 + rng.Intn(2)}}
+			if rng.Chance(50) {
+				lo := int64(-100 + rng.Intn(10))
+				c.P.Lo = &lo
+			}
+		} else {
+			c = prog{Kind: "PE", Hm: 1 + rng.Intn(3), P: plan{Kind: []string{"eq", "eqge"}[rng.Intn(2)], A: rng.Intn(3), B: 1 + rng.Intn(2)}, Nst: 2}
+			f := freshE(rng, false)
+			c.Nexp = &f
+		}
+		crit := c
+		if c.Kind == "PE" {
+			crit.Od = true
+		}
+		k, ok := firstMatch(rs, crit)
+		if !ok {
+			continue
+		}
+		old, _ := find(rs, k)
+		var w prog
+		switch rng.Intn(7) {
+		case 0:
+			w = prog{Kind: "WPatch", K: k, St: (old.St + 1 + rng.Intn(2)) % 3} // leaves the indexed leg
+		case 1:
+			w = prog{Kind: "WPut", K: k, St: old.St, Grp: 0, E: old.E} // leaves the residual leg (grp)
+		case 2:
+			w = prog{Kind: "WExp", K: k, E: freshE(rng, false)} // lease extension: leaves the window above
+		case 3:
+			w = prog{Kind: "WExp", K: k, E: -5000 - int64(i)} // leaves the window below (FromTime)
+		case 4:
+			w = prog{Kind: "WExp", K: k, E: 0}
+		case 5:
+			w = prog{Kind: "WPut", K: k, St: (old.St + 1) % 3, Grp: rng.Intn(4), E: freshE(rng, rng.Chance(50))}
+		default:
+			w = prog{Kind: "WDel", K: k}
+		}
+		ps := []prog{c, w, genClaimer(rng)}
+		sched := []mstep{{"Built", 0}, {"Finish", 1}}
+		if rng.Chance(30) {
+			sched = append(sched, mstep{"Selected", 0}, mstep{"Finish", 2})
+		}
+		add(runForced(e, rs, ps, sched, "forced-yield"))
+	}
+
+	// 1e. guard queue: a PatchExpired that has selected X and a Delete of X both wait for X's guard
+	// (held by a third writer), in either arrival order
+	nq := 24
+	if thorough {
+		nq = 200
+	}
+	for i := 0; i < nq; i++ {
+		n := 2 + rng.Intn(3)
+		rs := genRecs(rng, n)
+		k, ok := firstMatch(rs, prog{Od: true, P: plan{Kind: "none"}})
+		if !ok {
+			continue
+		}
+		pe := prog{Kind: "PE", Hm: 1 + rng.Intn(2), P: plan{Kind: "none"}, Nst: 2}
+		if rng.Bool() {
+			f := freshE(rng, false)
+			pe.Nexp = &f
+		}
+		var w prog
+		switch rng.Intn(3) {
+		case 0:
+			w = prog{Kind: "WPatch", K: k, St: rng.Intn(2)}
+		case 1:
+			w = prog{Kind: "WExp", K: k, E: -6000 - int64(i)}
+		default:
+			w = prog{Kind: "WPut", K: k, St: rng.Intn(2), Grp: 7, E: -7000 - int64(i)}
+		}
+		ps := []prog{pe, w, {Kind: "WDel", K: k}, {Kind: "SE", Hm: 5, Od: true, P: plan{Kind: "none"}}}
+		add(runQueue(e, rs, ps, i%2 == 0, "forced-queue"))
+	}
+
 	// 2. sequential histories
-	nseq := 220
+	nseq := 170
 	if thorough {
 		nseq = 2500
 	}
@@ -1096,7 +1258,7 @@ func main() {
 			}
 		}
 	}
-	n3 := 110
+	n3 := 85
 	if thorough {
 		n3 = 1500
 	}
